@@ -36,6 +36,17 @@ def main():
     p = VERIF / 'pbv' / 'known_funcs.json'
     p.write_text(json.dumps(sorted(out), indent=0))
     print(len(out), 'functions ->', p)
+    # constructs of the reference tree that the term graphs do not follow (pbv/opaque.py): a later version of a function is judged against these counts
+    from pbv.opaque import opaque_constructs, outer_functions
+    ref = {}
+    for m in prog.mods.values():
+        for _a, _b, q, node in outer_functions(m.tree):
+            c = opaque_constructs(node)
+            if c:
+                ref[f'{m.name}::{q}'] = dict(c)
+    p2 = VERIF / 'pbv' / 'opaque_reference.json'
+    p2.write_text(json.dumps(ref, indent=0, sort_keys=True))
+    print(len(ref), 'functions with constructs that are not followed ->', p2)
 
 
 main()
